@@ -203,6 +203,32 @@ pub fn work_c02(ctx: &Ctx, rep: &mut Report) {
         let h = gen::history(&mut r, &prof2);
         c02_history(&h, mix(ctx.seed, u as u64), rep);
     }
+    // extreme dimensions: "all sizes" includes widths / heights at and beyond 2^16 (such a screen is
+    // only ~1e5 cells as long as the other dimension is tiny)
+    // (wide and tall families are kept apart: re-wrapping 65536 columns into 1 is quadratic in the
+    // pinned algorithm, see DESIGN 11)
+    let wide: &[(usize, usize)] = &[(65535, 1), (65536, 1), (65537, 2), (100_000, 1), (131_073, 1), (65536, 3), (65560, 2)];
+    let tall: &[(usize, usize)] = &[(1, 65535), (1, 65536), (2, 65560), (1, 70_000), (3, 131_072), (2, 65537)];
+    let mut pairs: Vec<((usize, usize), (usize, usize))> = Vec::new();
+    for fam in [wide, tall] {
+        for a in fam {
+            for b in fam {
+                pairs.push((*a, *b));
+            }
+        }
+    }
+    for u in ctx.units(pairs.len()) {
+        let (a, b) = pairs[u];
+        let mut h = History::new(a.0, a.1, if u % 2 == 0 { None } else { Some(5) });
+        h.calls.push(Call::FeedStr("ab\r\ncd\x1b[2;2Hxyz\x1b[999999;999999Hq".into()));
+        h.calls.push(Call::Resize(b.0, b.1));
+        h.calls.push(Call::FeedStr("\x1b[?1049hA\x1b[65535;65535Hz".into()));
+        h.calls.push(Call::Resize(b.0 + 1, b.1 + 1));
+        h.calls.push(Call::FeedStr("\x1b[?1049lB".into()));
+        h.calls.push(Call::Resize(a.0, a.1));
+        c02_history(&h, u as u64, rep);
+        rep.count("extreme_dimension_histories", 1);
+    }
     // G2 with resize atoms: all sequences of k atoms
     let mut alpha: Vec<&'static str> = g2_alphabet("general");
     alpha.extend_from_slice(C02_RESIZE_ATOMS);
@@ -232,7 +258,17 @@ pub fn work_c02(ctx: &Ctx, rep: &mut Report) {
 pub fn c13_after(vt: &Vt, limit: Option<usize>) -> Option<String> {
     let (_, rows) = vt.size();
     let n = vt.lines().len();
-    let alt = vt.verif_state().alternate_active;
+    let hs = vt.verif_state();
+    let alt = hs.alternate_active;
+    // the configured limit never drifts: the primary buffer trims at (L, L + L/10), the alternate at 0
+    let (prim, alt_buf) = if alt { (&hs.other_buffer, &hs.buffer) } else { (&hs.buffer, &hs.other_buffer) };
+    let want = limit.map(|l| (l, l + l / 10));
+    if prim.scrollback_limit != want {
+        return Some(format!("the primary buffer's (soft, hard) limits are {:?}, configured limit {:?}", prim.scrollback_limit, limit));
+    }
+    if alt_buf.scrollback_limit != Some((0, 0)) {
+        return Some(format!("the alternate buffer's (soft, hard) limits are {:?}", alt_buf.scrollback_limit));
+    }
     if alt {
         if n != rows {
             return Some(format!("alternate screen showing: lines() has {} lines, rows = {}", n, rows));
@@ -305,6 +341,8 @@ pub fn work_c13(ctx: &Ctx, rep: &mut Report) {
         .with(T_C0, 40)
         .with(T_LINES, 14)
         .with(T_ALT, 4)
+        .with(T_RIS, 2)
+        .with(T_RESET, 2)
         .resizes(10)
         .limits(gen::LIMITS_FINITE)
         .length((4, 30), (2, 12))
@@ -344,6 +382,10 @@ pub fn work_c13(ctx: &Ctx, rep: &mut Report) {
                 h.calls.push(Call::FeedStr("\x1b[?1049h".to_string() + &"x\r\n".repeat(r.range(1, 40))));
                 h.calls.push(Call::Resize(r.range(1, 40), r.range(1, 8)));
                 h.calls.push(Call::FeedStr("\x1b[?1049l".into()));
+            }
+            if r.chance(1, 4) {
+                h.calls.push(Call::FeedStr("\x1bc".into()));
+                h.calls.push(Call::FeedStr("after reset\r\n".repeat(r.range(0, 2 * limit + 40))));
             }
             h.calls.push(Call::FeedStr("tail\r\n".repeat(r.range(0, 30))));
         }
